@@ -1,5 +1,5 @@
 SPECIFICATION Spec
-CONSTANTS Kinds = {"buf", "hmeta", "reply", "rawdata", "stream", "geninfo", "metabuf", "cxxref", "bare"}
+CONSTANTS Kinds = {"buf", "hmeta", "reply", "rawdata", "geninfo", "cxxref", "bare"}
   NH = 3 NObj = 2 Max = 5 MaxExtra = 1 AsFound = FALSE
 VIEW View
 INVARIANTS TypeOK AliveIffReferenced CountExact NoDangling ObsAgrees
